@@ -173,7 +173,20 @@ def deep_message() -> Any:
     return st.one_of(rfc, st.sampled_from([60, 400, 1200]).map(multi))
 
 
+LITERAL_TAILS = [b'{3+}', b'{0+}', b' {12+}', b'\r\n{1+}', b'{3}', b'{2+}\r',
+                 b'{2+}\n']
+
+
 def any_message() -> Any:
+    """most messages as they are; some end in what looks like the
+    announcement of a (non-synchronising) literal"""
+    return st.one_of(_any_message(), _any_message(), _any_message(),
+                     st.tuples(_any_message(),
+                               st.sampled_from(LITERAL_TAILS)).map(
+                         lambda t: t[0][:2000] + t[1]))
+
+
+def _any_message() -> Any:
     return st.one_of(
         deep_message(),
         st.binary(min_size=1, max_size=200),
@@ -199,7 +212,8 @@ NASTY = [b'', b' ', b'&', b'&-', b'&AAo-', b'&AOk', b'&!!-', b'&AO-',
          b'%a' * 14 + b'%b', b'&2AA-', b'&2D3YPQ-', b'x&3AA-y',
          b'a' * 300, b'"' + b'a' * 100 + b'"', b'CHARSET', b'utf-16',
          b'US-ASCII', b'bogus-charset', b'UTF-8', b'idna', b'undefined',
-         b'unicode_escape', b'rot13', b'zlib', b'base64']
+         b'unicode_escape', b'rot13', b'zlib', b'base64',
+         b'x{3+}', b'{0+}', b'x {1+}', b'x\r\n{2+}']
 
 
 def nasty_atom() -> Any:
